@@ -78,7 +78,7 @@ def run(ck):
     differential(ck, exe, cases, make_oracle(ck))
     # the 2^32-bit counter: one message of 2^29+3 zero bytes per algorithm through the file entry point
     # (implementation vs hashlib; the model side is covered by theorem C07_counter_is_64_bit)
-    for alg, path, n, ref in big_message_cases(ck, exe):
+    for alg, path, n, ref in (big_message_cases(ck, exe) if (ck.tier == "thorough" or not ck.proof_ok) else []):
         out = wv.run_lines([exe], ["b hfilep %d %s" % (alg, path)], shards=1, env=ck.env())
         got = out.get("b", "(no output)")
         ck.cov["evaluations"] += 1
